@@ -8,3 +8,4 @@ def run(ck):
     region.r7_1_overflow_width(ck, P)
     region.r6_4_normalisation(ck, P)
     region.r7_3_queries(ck, P)
+    region.r7_4_compaction_cursors(ck, P)
